@@ -16,6 +16,8 @@ RULE = ('cases = reshape of TT tensors of order<=4 (sizes from {1,2,3,4,6}) to e
         'the qtt_to_tens round trip; eps from the default to 1e-1 with decaying/graded/Gaussian values so truncation is really active; real/complex/f32. '
         'Oracle: requested mode sizes exactly; ||D(y) - reshape/permute(D(x))|| <= 10*eps*||x|| + 1e3*u*S_rep (sign/phase/scale changes are O(||x||) and always caught). '
         'distinct = (op, source structure, target, eps class, dtype); non-trivial = order>=2 or a singleton insertion.')
+from ..hist import RULE_SUFFIX as _RS
+RULE = RULE + _RS
 ASSUMPTIONS = ['"a small multiple of eps" is fixed a priori as 10*eps; the maximum observed ratio is reported',
                'qtt_to_tens is exercised on tensors only (the property says tensors); mode sizes up to 32']
 REQUIRED_REACH = ['_extras:reshape', '_extras:permute', '_tt_base:TT.to_qtt', '_tt_base:TT.qtt_to_tens', '_decomposition:rl_orthogonal']
